@@ -442,6 +442,24 @@ pub fn run_numeric(case: &NumCase, st: &mut Stats) -> CaseResult {
     ensure!(((ea + eb) - eb) == ea, "C13/expected-utility:sub-inverts-add", "({:?} + {:?}) - {:?} = {:?}", ea, eb, eb, (ea + eb) - eb);
     ensure!((ea - ea) == ExpectedUtility::zero(), "C13/expected-utility:a-minus-a", "{:?} - itself = {:?}", ea, ea - ea);
     lattice_laws("expected-utility", ea, eb, ec)?;
+    // the order and the selections are also exercised where the gaps are tiny or the magnitudes extreme: the same
+    // triples scaled by 2^-60 and 2^40 (exact), and values one or a few units in the last place apart
+    // (0.75 + k * 2^-53, exact); comparisons and selections involve no rounding, so == stays the right test
+    for (tag, g) in [
+        ("scaled by 2^-60", (|x: f64| x * (0.5f64).powi(60)) as fn(f64) -> f64),
+        ("scaled by 2^40", |x: f64| x * (2.0f64).powi(40)),
+        ("a few ulps apart", |x: f64| 0.75 + x * (0.5f64).powi(53) * if x.fract() == 0.0 { 1.0 } else { 8.0 }),
+    ] {
+        let h: Vec<f64> = f.iter().map(|x| g(*x)).collect();
+        lattice_laws("real", RealSemiring(h[0]), RealSemiring(h[2]), RealSemiring(h[4])).map_err(|mut e| {
+            e.detail = format!("{} [{}]", e.detail, tag);
+            e
+        })?;
+        lattice_laws("expected-utility", ExpectedUtility(h[0], h[1]), ExpectedUtility(h[2], h[3]), ExpectedUtility(h[4], h[5])).map_err(|mut e| {
+            e.detail = format!("{} [{}]", e.detail, tag);
+            e
+        })?;
+    }
     // Boolean
     let (ba, bb, bc) = (
         BooleanSemiring(case.bools.0),
@@ -465,7 +483,7 @@ pub fn run_numeric(case: &NumCase, st: &mut Stats) -> CaseResult {
 impl SubCheckT for Numeric {
     type Case = NumCase;
     const NAME: &'static str = "real_complex_eu_bool_rational";
-    const RULE: &'static str = "triples of exactly representable values (integers in [-64,64], dyadics k/8) for the real, complex and expected-utility types, all Boolean triples, naturals < 40 built from one()/zero() for the rational type: semiring laws with exact equality, ring subtraction inverts addition, join/meet idempotent/commutative/associative, and for every PartialOrd-related pair join = choose = larger, meet = smaller. Non-trivial: first components pairwise distinct and none is 0 or 1";
+    const RULE: &'static str = "triples of exactly representable values (integers in [-64,64], dyadics k/8) for the real, complex and expected-utility types, all Boolean triples, naturals < 40 built from one()/zero() for the rational type: semiring laws with exact equality, ring subtraction inverts addition, join/meet idempotent/commutative/associative, and for every PartialOrd-related pair join = choose (both the semiring and the ring variant) = larger, meet = smaller, also for the triples scaled by 2^-60 / 2^40 and for values a few units in the last place apart. Non-trivial: first components pairwise distinct and none is 0 or 1";
     fn cases(tier: Tier) -> u32 {
         tier.pick(150_000, 1_500_000)
     }
